@@ -27,6 +27,9 @@ class Env:
         self.now = 0.0
         self.readable = set()
         self.sched = sorted((at / 1000.0, fd) for fd, at in (readable_at or {}).items())  # at in ms
+        self.actions = []     # [(time_s, callable)]: environment actions on real descriptors (C12)
+        self.realfds = {}     # real OS descriptor -> abstract id; readiness is asked from the OS
+        self.on_wait = None   # called at every blocking call (C12: drain the pty master)
         self.ev = []
         self.nwaits = 0
         self.max_waits = max_waits
@@ -43,26 +46,47 @@ class Env:
             if fd not in self.readable:
                 self.readable.add(fd)
                 self.log(t="env_readable", fd=fd)
+        while self.actions and self.actions[0][0] <= self.now + 1e-12:
+            _, act = self.actions.pop(0)
+            act()
+
+    def next_time(self):
+        c = [x[0] for x in (self.sched[:1] + self.actions[:1])]
+        return min(c) if c else None
+
+    def real_ready(self, watched_real):
+        if not watched_real:
+            return set()
+        import select
+
+        r, _, _ = select.select(list(watched_real), [], [], 0)
+        return {self.realfds[fd] for fd in r}
 
     def slow(self, ms):
         self.now += ms / 1000.0
         self.log(t="slow", d=ms * 1000)
 
-    def wait(self, timeout, watched):
+    def wait(self, timeout, watched, watched_real=()):
         """The loop's blocking call.  timeout in seconds or None; watched = abstract descriptor ids."""
         self.nwaits += 1
         if self.nwaits > self.max_waits:
             raise Stuck("too many waits")
+        if self.on_wait:
+            self.on_wait()
         self.apply_due()
         watched = set(watched)
-        ready = sorted(self.readable & watched)
+
+        def current():
+            return sorted((self.readable & watched) | self.real_ready(watched_real))
+
+        ready = current()
         tmo = -1 if timeout is None else max(0, int(round(timeout * US)))
         self.log(t="wait", timeout=tmo, ready=ready, grace=self.grace)
         if ready or tmo == 0:
             return ready
         target = None if timeout is None else self.now + timeout
         while True:
-            nxt = self.sched[0][0] if self.sched else None
+            nxt = self.next_time()
             if nxt is not None and (target is None or nxt <= target):
                 to = nxt
             elif target is not None:
@@ -72,7 +96,7 @@ class Env:
             self.now = max(self.now, to)
             self.log(t="advance", to=self.us())
             self.apply_due()
-            ready = sorted(self.readable & watched)
+            ready = current()
             # a descriptor nobody watches does not wake the loop: keep sleeping until the timeout
             if ready or (target is not None and self.now >= target - 1e-12):
                 break
@@ -96,12 +120,18 @@ class FakeSelector(selectors._BaseSelectorImpl):
 
     def select(self, timeout=None):
         watched = {}
+        real = []
         for key in self.get_map().values():
-            if key.fd >= FD_BASE and key.events & selectors.EVENT_READ:
+            if not key.events & selectors.EVENT_READ:
+                continue
+            if key.fd >= FD_BASE:
                 watched[key.fd - FD_BASE] = key
+            elif key.fd in self.env.realfds:
+                watched[self.env.realfds[key.fd]] = key
+                real.append(key.fd)
         if timeout is not None and timeout < 0:
             timeout = 0
-        ready = self.env.wait(timeout, watched.keys())
+        ready = self.env.wait(timeout, [k for k, v in watched.items() if v.fd >= FD_BASE], real)
         return [(watched[f], selectors.EVENT_READ) for f in ready if f in watched]
 
 
@@ -237,7 +267,11 @@ class _FakePoller:
 
     def poll(self, timeout=None):
         watched = {self.fdmap[k]: k for k in self.reg if k in self.fdmap}
-        ready = self.env.wait(None if timeout is None else max(0.0, timeout / 1000.0), watched.keys())
+        real = [k for k in self.reg if k in self.env.realfds]
+        for k in real:
+            watched[self.env.realfds[k]] = k
+        ready = self.env.wait(None if timeout is None else max(0.0, timeout / 1000.0),
+                              [a for a, k in watched.items() if k in self.fdmap], real)
         return [(watched[f], 1) for f in ready if f in watched]
 
 
@@ -298,6 +332,8 @@ class TrioAdapter(Adapter):
                     adapter.stuck = True
                     adapter.cancel_all()
                     return
+                if env.on_wait:
+                    env.on_wait()
                 env.apply_due()
                 watched = set(adapter.waiting)
                 ready = sorted(env.readable & watched)
@@ -337,15 +373,23 @@ class TrioAdapter(Adapter):
             sync()
 
         async def wait_readable(fd):
-            f = fd - FD_BASE
+            if hasattr(fd, "fileno"):
+                fd = fd.fileno()
+            isreal = fd in env.realfds
+            f = env.realfds[fd] if isreal else fd - FD_BASE
             self.waiting[f] = self.waiting.get(f, 0) + 1
             try:
                 while True:
                     sync()
                     env.apply_due()
-                    if f in env.readable:
-                        return
-                    nxt = [t for t, g in env.sched if g == f]
+                    if isreal:
+                        if env.real_ready([fd]):
+                            return
+                        nxt = [t for t, _ in env.actions]
+                    else:
+                        if f in env.readable:
+                            return
+                        nxt = [t for t, g in env.sched if g == f]
                     if not nxt:
                         await trio.sleep_forever()
                     else:
